@@ -948,6 +948,50 @@ func main() {
 		fail("TinyLfu.climb not found")
 	}
 
+	// store.go: the functions handed to shard.group.Do / shard.vgroup.Do defer a Forget(key) after deferring the shard unlock
+	// (deferred calls run last-in first-out: the Forget runs while the shard lock is still held)
+	{
+		forgetIn := func(group string) bool {
+			ok := false
+			for _, f := range internal {
+				ast.Inspect(f, func(m ast.Node) bool {
+					call, isCall := m.(*ast.CallExpr)
+					if !isCall || exprString(call.Fun) != "shard."+group+".Do" || len(call.Args) != 2 || exprString(call.Args[0]) != "key" {
+						return true
+					}
+					fl, isLit := call.Args[1].(*ast.FuncLit)
+					if !isLit {
+						return true
+					}
+					unlockAt, forgetAt := -1, -1
+					for i, st := range fl.Body.List {
+						ds, isDefer := st.(*ast.DeferStmt)
+						if !isDefer {
+							continue
+						}
+						switch exprString(ds.Call.Fun) {
+						case "shard.mu.Unlock":
+							if unlockAt < 0 {
+								unlockAt = i
+							}
+						case "shard." + group + ".Forget":
+							if len(ds.Call.Args) == 1 && exprString(ds.Call.Args[0]) == "key" && forgetAt < 0 {
+								forgetAt = i
+							}
+						}
+					}
+					if unlockAt >= 0 && forgetAt > unlockAt {
+						ok = true
+					}
+					return true
+				})
+			}
+			return ok
+		}
+		fmt.Fprintf(&cb, "(* store.go: the leader's function of a loading Get / of a Get answered by the secondary tier forgets its singleflight key before the shard lock is released *)\nDefinition c_flight_forget_in_loader : bool * bool := (%v, %v).\n", forgetIn("group"), forgetIn("vgroup"))
+		rep.Consts = append(rep.Consts, "flight_forget_in_loader")
+	}
+
 	// store.go, Store.Close: the loop over the shards comes first, nothing in Close can leave before its end, every shard is closed under its own lock
 	{
 		var fdc *ast.FuncDecl
